@@ -175,6 +175,28 @@ def run(ctx):
                         nq = Fraction(nel) if cls == "AveragePowerConstraint" else Fraction(1)
                         exprs.append("c19_constraint_jvp %s %s %s %s %s %s %s" % (cQ(Fraction(1, 1000000)), cQ(Fraction(Tt)), cQ(Fraction(1, 100000000)), cQ(nq), cql(fl(xi[b])), cql(fl(vi[b])), cql(fl(ui[b]))))
                         meta.append(("jvp", key % "jvp-closed-form", "%s: the autograd Jacobian-vector product of item %d differs from s (v - x (x.v)/(n (c+eps))) (shape %s)" % (name, b, shape), rep))
+    # a silent (all-zero) sample inside a batch must not poison the gradients (NaN at some power level)
+    for name, cls, mk, mode in stages:
+        if cls not in ("TotalPowerConstraint", "AveragePowerConstraint", "PAPRConstraint", "PerAntennaPowerConstraint", "AWGNChannel/snr_db", "AWGNChannel/avg_noise_power"):
+            continue
+        for shape in ([(3, 6), (2, 3, 2, 2)] if mode == "both" else [(2, 3, 4)]):
+            for cplx in (False, True):
+                x = mkx(shape, cplx, rng.randrange(1 << 30))
+                x[1] = 0
+                x.requires_grad_(True)
+                w = mkx(shape, cplx, 5)
+                ctx.count("silent-sample-cases")
+                try:
+                    torch.manual_seed(3)
+                    y = mk()(x)
+                    loss = (y * w.conj()).real.sum() if torch.is_complex(y) else (y * w).sum()
+                    loss.backward()
+                except Exception as ex:
+                    ctx.violation("C19/%s/silent-sample-raises" % cls, "%s on a batch of shape %s with an all-zero member raised %s" % (name, shape, str(ex)[:100]), {"stage": name, "shape": list(shape)})
+                    continue
+                if x.grad is None or not bool(torch.isfinite(torch.view_as_real(x.grad) if cplx else x.grad).all()):
+                    ctx.violation("C19/%s/silent-sample-gradient" % cls, "%s: a batch of shape %s in which member 1 is all zero gets a non-finite input gradient (%d NaN/inf entries)" % (
+                        name, shape, 0 if x.grad is None else int((~torch.isfinite(torch.view_as_real(x.grad) if cplx else x.grad)).sum())), {"stage": name, "shape": list(shape), "complex": cplx})
     ctx.log("stages done", len(exprs))
 
     # ------------------------------------------------------------------ architectures: shapes, range, gradients
